@@ -325,9 +325,9 @@ func c02Prop(c *sim.Case) {
 	ho.o.Discovery = false
 	// header / preamble configurations
 	ho.o.IDHeader = sim.PickStr(c, "idheader", "authorization", "Authorization", "x-id-token", "X-ID-Token")
-	ho.o.IDPreamble = sim.PickStr(c, "idpreamble", "Bearer", "", "Token", "a b")
+	ho.o.IDPreamble = sim.PickStr(c, "idpreamble", "Bearer", "", "Token", "a b", "Bearer ", " x")
 	ho.o.ATHeader = sim.PickStr(c, "atheader", "x-access-token", "X-Access-Token", "x-forwarded-access-token")
-	ho.o.ATPreamble = sim.PickStr(c, "atpreamble", "", "Bearer", "Access")
+	ho.o.ATPreamble = sim.PickStr(c, "atpreamble", "", "Bearer", "Access", "Access ", " y")
 	ops0 := genOps(c, c02Profile, 24)
 	var ops []op
 	for _, o := range ops0 {
